@@ -65,6 +65,20 @@ func concurrentSmoke(scheme *k8sruntime.Scheme, r *u.Rng) (store []PodObs, clean
 	svc := newService(srv.ic)
 	ctx := context.Background()
 	var wg sync.WaitGroup
+	// wait for all goroutines, but not forever: a broken lock can deadlock them
+	wait := func() bool {
+		ch := make(chan struct{})
+		go func() { wg.Wait(); close(ch) }()
+		select {
+		case <-ch:
+			return true
+		case <-time.After(20 * time.Second):
+			failed.Lock()
+			clean = false
+			failed.Unlock()
+			return false
+		}
+	}
 	spawn := func(f func()) {
 		wg.Add(1)
 		go func() {
@@ -111,7 +125,9 @@ func concurrentSmoke(scheme *k8sruntime.Scheme, r *u.Rng) (store []PodObs, clean
 	for i := 0; i < 3; i++ {
 		spawn(func() { _ = svc.SyncForNode(ctx, "n1") })
 	}
-	wg.Wait()
+	if !wait() {
+		return srv.snapshot(mf), false
+	}
 	// phase B: some consumers complete; concurrent syncs of their groups
 	for _, p := range pods {
 		if !p.done {
@@ -134,9 +150,16 @@ func concurrentSmoke(scheme *k8sruntime.Scheme, r *u.Rng) (store []PodObs, clean
 	}
 	spawn(func() { _ = svc.SyncForNode(ctx, "n1") })
 	spawn(func() { _ = svc.Sync(ctx) })
-	wg.Wait()
-	if err := svc.Sync(ctx); err != nil {
-		clean = false
+	if !wait() {
+		return srv.snapshot(mf), false
+	}
+	spawn(func() {
+		if err := svc.Sync(ctx); err != nil {
+			panic(err)
+		}
+	})
+	if !wait() {
+		return srv.snapshot(mf), false
 	}
 	srv.jitter = nil
 	return srv.snapshot(mf), clean
